@@ -6,9 +6,9 @@ VARIABLE l
 Rec == TraceLog[l]
 Judge(r) == CASE r.e = "mview" -> MviewOK(r) [] r.e = "frombuf" -> FromBufOK(r)
               [] r.e = "get2d" -> Get2DOK(r) [] r.e = "set2d" -> Set2DOK(r) [] r.e = "set2d1" -> Set2D1OK(r) [] r.e = "set2dbad" -> Set2DBadOK(r)
-              [] r.e = "mat" -> MatOK(r) [] r.e = "mask2d" -> Mask2DOK(r) [] r.e = "str" -> StrOK(r) [] r.e = "strseq" -> StrSeqOK(r) [] r.e = "conv" -> ConvOK(r) [] r.e = "hugeidx" -> HugeIdxOK(r) [] r.e = "maskcomp" -> MaskCompOK(r) [] r.e = "simplebuf" -> SimpleBufOK(r) [] r.e = "varr" -> VArrOK(r) [] OTHER -> FALSE
+              [] r.e = "mat" -> MatOK(r) [] r.e = "mask2d" -> Mask2DOK(r) [] r.e = "str" -> StrOK(r) [] r.e = "strseq" -> StrSeqOK(r) [] r.e = "conv" -> ConvOK(r) [] r.e = "hugeidx" -> HugeIdxOK(r) [] r.e = "maskcomp" -> MaskCompOK(r) [] r.e = "simplebuf" -> SimpleBufOK(r) [] r.e = "rowview" -> RowViewOK(r) [] r.e = "varr" -> VArrOK(r) [] OTHER -> FALSE
 What(r) == CASE r.e = "mview" -> <<r.e, r.cls>> [] r.e = "frombuf" -> <<r.e, r.fn, r.fmt>>
-             [] r.e \in {"get2d", "set2d", "set2d1", "mat"} -> <<r.e, r.cls>> [] r.e = "set2dbad" -> <<r.e, r.cls, r.index, r.src>> [] r.e \in {"mask2d", "varr"} -> <<r.e, r.cls, r.op>> [] r.e = "conv" -> <<r.e, r.src, r.dst, r.kind>> [] r.e = "hugeidx" -> <<r.e, r.cls, r.op, r.idx>> [] r.e = "maskcomp" -> <<r.e, r.cls, r.comp>> [] r.e = "simplebuf" -> <<r.e, r.cls, r.comp, r.consumer>> [] OTHER -> <<r.e>>
+             [] r.e \in {"get2d", "set2d", "set2d1", "mat"} -> <<r.e, r.cls>> [] r.e = "set2dbad" -> <<r.e, r.cls, r.index, r.src>> [] r.e \in {"mask2d", "varr"} -> <<r.e, r.cls, r.op>> [] r.e = "conv" -> <<r.e, r.src, r.dst, r.kind>> [] r.e = "hugeidx" -> <<r.e, r.cls, r.op, r.idx>> [] r.e = "maskcomp" -> <<r.e, r.cls, r.comp>> [] r.e = "simplebuf" -> <<r.e, r.cls, r.comp, r.consumer>> [] r.e = "rowview" -> <<r.e, r.cls, r.how>> [] OTHER -> <<r.e>>
 Init == l = 1
 Next == \/ /\ l <= TraceLen
            /\ IF Judge(Rec) THEN TRUE ELSE ReportBad(l, What(Rec))
